@@ -6,6 +6,9 @@ CLAIMED = {
  "C14": ("TLC model-checks hybrid.Storage at tier-operation granularity (spec/Hybrid.tla: two callers x two facade calls, per-key lock, cache fill, list read-modify-write; the pre-repair design with the asynchronous write-back is kept as a second configuration in which TLC finds the stale read and the lost append) and emits one behaviour per (state, tier step) transition; each is forced on the real hybrid.Storage over gate-controlled tier doubles for all four key categories; call/return histories, the quiescent probe and the tier classes touched by every facade operation are judged by TLC (spec/HybridTrace.tla). Seeded free-running stress runs are judged by the same spec.",
          "trusts TLC, spec/HybridTrace.tla as the reading of C14, the gate scheduler and tier doubles; one facade instance (callers are goroutines of one node); cache-TTL expiry not exercised",
          "TLA+ model of the tiered store; TLC transition-coverage generation; gate-scheduled replay on real code; TLC trace validation", "DESIGN.md §5 C14"),
+ "C10": ("TLC model-checks the cross-node frame writer/reader (spec/CrossFrame.tla: write segmentation into <=MAX frames, reader buffer/offset/EOF, foreign-tunnel, colliding-id and unknown-type frames, half-close/close; decoder length/truncation classes) and enumerates write-size x injection x reader-buffer scripts; each runs on the real crossnode.FrameStream pair over loopback TCP, the real ReadFrameFromReader and the real runBidirectionalForward; deliveries, end-of-stream, decoder outcomes and allocation are judged by TLC (spec/CrossFrameTrace.tla).",
+         "trusts TLC, spec/CrossFrameTrace.tla as the reading of C10, byte-class attribution and allocation measurement in drivers/c10, loopback TCP; scaled-down MAX in the model",
+         "TLA+ model of frame stream; TLC-enumerated scripts replayed on real code; TLC trace validation", "DESIGN.md §5 C10"),
  "C13": ("TLC enumerates every (state, operation) transition of the reference TTL key-value state graph (spec/KV.tla, per key-type family) and random deep histories; each is replayed on the real memory backend and on the real Redis backend over miniredis; TLC judges every recorded result against the reference (spec/KVTrace.tla).",
          "trusts TLC, spec/KVRef.tla as the reading of the statement, the result normalisation in drivers/c13, miniredis as Redis, real sleeps (120 ms TTL / 200 ms tick) for the clock",
          "TLA+ reference model; TLC transition-coverage generation; trace validation of real-code results by TLC", "DESIGN.md §5 C13"),
